@@ -9,8 +9,8 @@ fn main() {
         ctx.run_slice(Slice::new(fam, count, move |i, loc| cref.run(fam, i, loc)));
     }
     let meta = Meta {
-        rule: "all finite functions a -> b with a <= 4, b <= 4 (thorough: b = 5 for a <= 3) and from them all ordered pairs (composable or not, parallel or not); all raw tables of length <= 3 with entries <= 4 against every declared codomain 0..5; all (sizes, index map) pairs with <= 3 blocks of size <= 3 and index maps of length <= 3 (well and ill typed); all surjections q: B -> Q (B, Q <= 4) crossed with every f: B' -> 3 for |B'| in {B-1, B, B+1}; non-trivial = the interesting branch is taken (rejection, non-injective, merging coequalizer, no universal map); plus coequalizers of parallel maps read off structured edge lists on up to 64 elements (paths, stars, cycles, binomial merge orders, combs, each in four orders) and sparse pair lists on 255..4097 elements; short tables into codomains of sizes around powers of two (255..4097) for new / is_injective / identity / twist / transpose".into(),
-        bounds: "domains and codomains <= 4 (5), label alphabets of 2-3 values".into(),
+        rule: "all finite functions a -> b with a <= 4, b <= 4 (thorough: a <= 6, b <= 5) and from them all ordered pairs (composable or not, parallel or not); thorough: the coequalizer of every pair of parallel maps a -> 6, a <= 6; all raw tables of length <= 3 with entries <= 4 against every declared codomain 0..5; all (sizes, index map) pairs with <= 3 (thorough 4) blocks of size <= 3 and index maps of length <= 3 (4) (well and ill typed); all surjections q: B -> Q (B, Q <= 4, thorough 5) crossed with every f: B' -> 3 for |B'| in {B-1, B, B+1}; non-trivial = the interesting branch is taken (rejection, non-injective, merging coequalizer, no universal map); plus coequalizers of parallel maps read off structured edge lists on up to 64 elements (paths, stars, cycles, binomial merge orders, combs, each in four orders) and sparse pair lists on 255..4097 elements; short tables into codomains of sizes around powers of two (255..4097) for new / is_injective / identity / twist / transpose".into(),
+        bounds: "quick: domains and codomains <= 4; thorough: domains <= 6, codomains <= 5 (6 for coequalizers); label alphabets of 2-3 values".into(),
         assumptions: vec!["functions-as-Vec loops are the specification".into(), "coequalizer numbering is free (partition equality)".into(), "cumulative_sum: table = exclusive prefix sums, codomain = total (its range is not demanded, see DESIGN.md)".into(), "universal-map clause only for surjective q, as the property states".into()],
         explanation: "explicit enumeration of the public FiniteFunction / SemifiniteFunction / SemifiniteArrow API against set-theoretic definitions".into(),
     };
